@@ -34,8 +34,6 @@ theorem C44_given_eq_enumerated (st : St) (f v : Term) (n : Nat) (hf : f.isVar =
   rw [get_eq_spec, get_eq_spec]
   exact ⟨given_eq_enumerated_spec f v n st hf, rfl⟩
 
-theorem beq_term (a b : Term) : (a == b) = decide (a = b) := rfl
-
 /-- the same in lookup form: the value read for a given flag is the one the enumeration lists
     for it (and a flag is listed at most with that value). -/
 theorem C44_get_eq_enumerate_lookup (st : St) (f : Term) (hf : f.isVar = false) :
